@@ -680,6 +680,10 @@ func runC08(c *wk.Ctx) {
 		jobs = append(jobs, job{ti, c08Fault{kind: rig.FaultNone, failWrites: -1}, "no-fault"})
 		for k := int64(0); k <= total; k++ {
 			inHello := k < helloEnd-1
+			if bound[k] || k == 0 || k == helloEnd/4 || k == helloEnd/2 || (k > helloEnd && k%7 == 3) {
+				// an expired read deadline: the error says Timeout() == true and comes back on every later read
+				jobs = append(jobs, job{ti, c08Fault{kind: rig.FaultReadTimeout, at: k, failWrites: -1}, "cut"})
+			}
 			if inHello && c.Quick() && k%5 != 0 && !bound[k] && k > 40 {
 				continue
 			}
@@ -692,10 +696,6 @@ func runC08(c *wk.Ctx) {
 					f.garbage = garb[int(k)%len(garb)]
 				}
 				jobs = append(jobs, job{ti, f, "cut"})
-			}
-			if bound[k] || k%7 == 3 {
-				// an expired read deadline: the error says Timeout() == true and comes back on every later read
-				jobs = append(jobs, job{ti, c08Fault{kind: rig.FaultReadTimeout, at: k, failWrites: -1}, "cut"})
 			}
 		}
 		// one flipped byte inside the hello message (the schema description travels there): ReadSchema may fail or
